@@ -32,10 +32,11 @@ const (
 	cStuckTerm      // terminating, grace period long over
 	cOldDSAvail     // adopted from the old DaemonSet: no template-hash annotation, available
 	cOldFailed      // outdated pod in phase Failed that the failed-pods back-off keeps on its node for now
+	cUpTerminating  // up to date, still Ready, but terminating within its grace period (deleted by a user / a drain)
 	c03Classes
 )
 
-var c03ClassNames = []string{"none", "upAvail", "upUnavail", "oldAvail", "oldUnavail", "oldTerm", "stuckUnsched", "stuckTerm", "oldDSAvail", "oldFailed"}
+var c03ClassNames = []string{"none", "upAvail", "upUnavail", "oldAvail", "oldUnavail", "oldTerm", "stuckUnsched", "stuckTerm", "oldDSAvail", "oldFailed", "upTerm"}
 
 func c03Names(cl []int) []string {
 	out := make([]string, len(cl))
@@ -139,6 +140,11 @@ func c03Pod(class int, ns, rsName, edsName, node, hash string, now time.Time) *c
 		ready(false)
 		dt := metav1.NewTime(now.Add(-10 * time.Minute))
 		g := int64(30)
+		p.DeletionTimestamp, p.DeletionGracePeriodSeconds = &dt, &g
+	case cUpTerminating:
+		ready(true)
+		dt := metav1.NewTime(now.Add(-5 * time.Second))
+		g := int64(3600)
 		p.DeletionTimestamp, p.DeletionGracePeriodSeconds = &dt, &g
 	case cOldFailed:
 		p.Annotations[v1.MD5ExtendedDaemonSetAnnotationKey] = old
@@ -356,5 +362,5 @@ func TestC03(t *testing.T) {
 	run.Sample(map[string]interface{}{"classes": []string{"stuckUnsched", "oldAvail", "none"}, "maxUnavailable": "50%", "maxPodSchedulerFailure": "1"})
 	run.Assumptions = []string{"map iteration order controlled by the tool-chain overlay (<= 8 entries: insertion order)",
 		"a terminating pod counts as not available (the statement's 'available daemon pod')"}
-	exit(run.Finish(fmt.Sprintf("every sequence (= node assignment AND map iteration order) of 10 node classes for 1..min(%d,6) nodes (7 nodes: 5 core classes) x 7 maxUnavailable x 3 maxPodSchedulerFailure through the real ManageDeployment; Reconcile-level twin (real R_ers on a prepared store) for 1..%d nodes; non-trivial = syncs that delete at least one pod, distinct by (n, #deleted, maxUnavailable)", maxN, twinN)))
+	exit(run.Finish(fmt.Sprintf("every sequence (= node assignment AND map iteration order) of 10-11 node classes for 1..min(%d,6) nodes (7 nodes: 5 core classes) x 7 maxUnavailable x 3 maxPodSchedulerFailure through the real ManageDeployment; Reconcile-level twin (real R_ers on a prepared store) for 1..%d nodes; non-trivial = syncs that delete at least one pod, distinct by (n, #deleted, maxUnavailable)", maxN, twinN)))
 }
